@@ -257,8 +257,13 @@ def create_end_event(
             # update end events in event sets to mirror exit event nodes
             for out_node in exit_event_nodes:
                 for event_set in out_node.in_event_sets:
-                    if event_set.to_frozenset().issubset(loop_event_types):
-                        end_event.update_in_event_sets(event_set.to_list())
+                    end_event.update_in_event_sets(
+                        [
+                            event_type
+                            for event_type in event_set.to_list()
+                            if event_type in loop_event_types
+                        ]
+                    )
         else:
             # if no exit event nodes mirror the in event sets of the loop
             # start events that come from the loop end events (loop back
